@@ -271,6 +271,14 @@ def evaluate(case: Dict[str, Any]) -> Dict[str, Any]:
             # with a relative error eps/cos(s, y), whatever the conditioning of the final matrix
             cosmin = float(np.min(sy / (np.linalg.norm(S, axis=1) * np.linalg.norm(Y, axis=1) + 1e-300)))
             cond = cond * max(1.0, 1.0 / max(cosmin, 1e-300))
+            # ... and the compact form goes through the 2m x 2m middle matrix, which is ill-conditioned when the stored steps are nearly
+            # dependent — always so when there are more pairs than variables (n = 1 with six pairs: B is a 1 x 1 matrix of condition 1
+            # while the middle matrix has condition 1e8; first met at seed 8): its conditioning enters the error of the product too
+            if mats.use_factor:
+                try:
+                    cond = max(cond, 1e-7 * float(np.linalg.cond(mats.invMfactors[0] @ mats.invMfactors[1])))
+                except Exception:  # noqa: BLE001
+                    cond = np.inf
             if cond < 1e9:
                 if ev[0] <= 0:
                     out["prop"].append({"what": "dense BFGS matrix of the stored pairs is not positive definite", "key": ""})
